@@ -531,6 +531,18 @@ func C16(c *run.Check) {
 	for _, sp := range []string{`"["`, `"]"`, `"{"`, `"}"`, `","`, `":"`, `"[]"`, `"{}"`, `"\""`, `"null"`, `"true"`, `"1"`, `"#arr"`} {
 		vals = append(vals, sp, "["+sp+"]", "["+sp+","+sp+"]", "[["+sp+"],"+sp+"]", "[[1,"+sp+"],2]", "{"+sp+":1}", "{"+sp+":["+sp+"]}", `{"a":`+sp+`,"b":1}`, "{"+sp+":{"+sp+":"+sp+"}}", "["+sp+",[],{}]")
 	}
+	// deep nesting (the adapter's state stack grows; members follow the nested
+	// container at every level): depth 1..40 in four shapes
+	for d := 1; d <= 40; d++ {
+		obj, arr, oa, ao := `{"x":[1],"y":2}`, `[1]`, `{"x":[1],"y":2}`, `[{"k":1},0]`
+		for k := 1; k <= d; k++ {
+			obj = `{"a":` + obj + `,"z":` + strconv.Itoa(k) + `}`
+			arr = `[` + arr + `,` + strconv.Itoa(k) + `]`
+			oa = `{"a":[` + oa + `,1],"b":2}`
+			ao = `[{"k":` + ao + `},0]`
+		}
+		vals = append(vals, obj, arr, oa, ao)
+	}
 	vals = append(vals, `["[","]"]`, `["{","}"]`, `{"[":"]","{":"}"}`, `[["x","]"],"y"]`, `{"a":"{","b":1}`)
 	vals = append(vals, `{"a":{"b":[{"a":1},[],{}]},"b":[[[]]]}`, `[{"a":[1,{"b":null}]},2]`, `{"a":[],"b":{},"a":[{}]}`, `[[],[[]],[[],[]]]`, `{"":{"":{"":1}}}`, `[1,[2,[3,[4]]]]`, `{"a":"x","a":"y"}`)
 	var texts []string
@@ -624,7 +636,7 @@ func C16(c *run.Check) {
 		c.Sample(texts[i])
 	}
 	c.Set("json_texts", len(texts))
-	c.Rule = fmt.Sprintf("every JSON value with <=%d scalar/empty-container tokens and nesting depth <=%d over keys {a,b,\"\",#obj,duplicate a} and %d scalars (numbers -0, 1.5, 1e21, 1e-7, 20-digit; strings incl. empty/escapes and strings/keys that spell structural tokens such as \"[\" or \"}\"; true/false/null), in 3 whitespace regimes, plus 1-3 concatenated top-level values (%d texts): tree compared with a direct recursive mapping; EVERY proper prefix of every text and every single structural-byte deletion/duplication judged by an independent JSON recogniser (error iff not a complete value sequence); reader deviations: one short read / one I/O error at every byte offset; non-trivial = distinct well-formed text with matching tree", budget, depth, ns, len(texts))
+	c.Rule = fmt.Sprintf("every JSON value with <=%d scalar/empty-container tokens and nesting depth <=%d over keys {a,b,\"\",#obj,duplicate a} and %d scalars (numbers -0, 1.5, 1e21, 1e-7, 20-digit; strings incl. empty/escapes and strings/keys that spell structural tokens such as \"[\" or \"}\"; true/false/null), in 3 whitespace regimes, nesting depth 1-40 in four shapes with members after the nested container at every level, plus 1-3 concatenated top-level values (%d texts): tree compared with a direct recursive mapping; EVERY proper prefix of every text and every single structural-byte deletion/duplication judged by an independent JSON recogniser (error iff not a complete value sequence); reader deviations: one short read / one I/O error at every byte offset; non-trivial = distinct well-formed text with matching tree", budget, depth, ns, len(texts))
 	c.Assume("top-level values adjacent without whitespace are not judged; numerals out of double range are outside the universe")
 }
 
